@@ -417,6 +417,175 @@ def kind_of_tree(t):
     return None
 
 
+def parse_tree(t):
+    """the canonical value tree printed by the harness -> python structure:
+    ("num",) ("str",) ("bool",) ("null",) ("arr", [..]) ("rec", {k: v}) ("tag", name) ("variant", name, v) ("opaque", what)"""
+    pos = 0
+    n = len(t)
+
+    def ws():
+        nonlocal pos
+        while pos < n and t[pos] == " ":
+            pos += 1
+
+    def string():
+        nonlocal pos
+        assert t[pos] == '"'
+        j = pos + 1
+        buf = ""
+        while t[j] != '"':
+            if t[j] == "\\":
+                buf += t[j + 1]
+                j += 2
+            else:
+                buf += t[j]
+                j += 1
+        pos = j + 1
+        return buf
+
+    def val():
+        nonlocal pos
+        ws()
+        c = t[pos]
+        if c == "#":
+            j = pos + 1
+            while j < n and (t[j].isdigit() or t[j] in "-/"):
+                j += 1
+            pos = j
+            return ("num",)
+        if c == '"':
+            string()
+            return ("str",)
+        if t.startswith("true", pos):
+            pos += 4
+            return ("bool",)
+        if t.startswith("false", pos):
+            pos += 5
+            return ("bool",)
+        if t.startswith("null", pos):
+            pos += 4
+            return ("null",)
+        if c == "[":
+            pos += 1
+            items = []
+            ws()
+            if t[pos] == "]":
+                pos += 1
+                return ("arr", items)
+            while True:
+                items.append(val())
+                ws()
+                if t[pos] == ",":
+                    pos += 1
+                    continue
+                assert t[pos] == "]"
+                pos += 1
+                return ("arr", items)
+        if c == "{":
+            pos += 1
+            fields = {}
+            ws()
+            if t[pos] == "}":
+                pos += 1
+                return ("rec", fields)
+            while True:
+                ws()
+                k = string()
+                assert t[pos] == ":"
+                pos += 1
+                if t[pos] == "~":
+                    pos += 1
+                fields[k] = val()
+                ws()
+                if t[pos] == ",":
+                    pos += 1
+                    continue
+                assert t[pos] == "}"
+                pos += 1
+                return ("rec", fields)
+        if c == "'":
+            pos += 1
+            return ("tag", string())
+        if t.startswith("('", pos):
+            pos += 2
+            name = string()
+            v = val()
+            ws()
+            assert t[pos] == ")"
+            pos += 1
+            return ("variant", name, v)
+        if c == "<":
+            j = t.index(">", pos)
+            what = t[pos + 1:j]
+            pos = j + 1
+            return ("opaque", what)
+        raise ValueError("unreadable tree at %d: %r" % (pos, t[pos:pos + 30]))
+
+    v = val()
+    return v
+
+
+def tree_inhabits(v, t):
+    """deep check of a result tree against a static type s-expression (type variables, Dyn, contracts
+    and wildcards accept anything); returns None or a description of the mismatch"""
+    if isinstance(t, str):
+        want = {"dyn": None, "num": "num", "bool": "bool", "str": "str", "sym": None, "foreign": None}[t]
+        if want is not None and v[0] != want:
+            return "%s where a %s is promised" % (v[0], t)
+        return None
+    h = t[0]
+    if h in ("contract", "wild", "var"):
+        return None
+    if h == "forall":
+        return tree_inhabits(v, t[3])
+    if h == "arr":
+        if v[0] != "arr":
+            return "%s where an array is promised" % v[0]
+        for x in v[1]:
+            r = tree_inhabits(x, t[1])
+            if r:
+                return "array element: " + r
+        return None
+    if h == "fun":
+        if v[0] != "opaque" or v[1] not in ("fun", "term"):
+            return "%s where a function is promised" % (v,)
+        return None
+    if h == "dict":
+        if v[0] != "rec":
+            return "%s where a dictionary is promised" % v[0]
+        for k, x in v[1].items():
+            r = tree_inhabits(x, t[2])
+            if r:
+                return "field %s: %s" % (k, r)
+        return None
+    if h == "rec":
+        if v[0] != "rec":
+            return "%s where a record is promised" % v[0]
+        for row in t[1]:
+            f = row[0][1]
+            if f not in v[1]:
+                return "field %s promised by the type is missing" % f
+            r = tree_inhabits(v[1][f], row[1])
+            if r:
+                return "field %s: %s" % (f, r)
+        if t[2] == "closed" and set(v[1]) - {row[0][1] for row in t[1]}:
+            return "extra fields %s in a closed record type" % sorted(set(v[1]) - {row[0][1] for row in t[1]})
+        return None
+    if h == "enum":
+        if v[0] == "tag":
+            if any(r[0][1] == v[1] and len(r) == 1 for r in t[1]) or t[2] != "closed":
+                return None
+            return "tag '%s is not a case of the enum type" % v[1]
+        if v[0] == "variant":
+            for r in t[1]:
+                if r[0][1] == v[1] and len(r) > 1:
+                    x = tree_inhabits(v[2], r[1])
+                    return ("payload of '%s: %s" % (v[1], x)) if x else None
+            return None if t[2] != "closed" else "variant '%s is not a case of the enum type" % v[1]
+        return "%s where an enum is promised" % v[0]
+    return None
+
+
 def wrap(app):
     # a label is only available inside a custom contract: every test program has the same shape
     return "(null | %%contract/custom%% (fun LBL _v => 'Ok (%s)))" % app
@@ -522,6 +691,10 @@ def dynamic_table(exe, table, tokens, tier):
     import itertools
     exempt_names = exempt_ops()
     cases = []          # (name, kinds tuple, program)
+    inh_of, res_of = {}, {}
+    for row in table:
+        inh_of[row["name"]] = set(itertools.product(*[[k for k in KINDS if inhabits(k, t)] for t in row["args"]]))
+        res_of[row["name"]] = row["res"]
     for row in table:
         n = row["nargs"]
         args_t = row["args"]
@@ -582,6 +755,16 @@ def dynamic_table(exe, table, tokens, tier):
                 d["progs"].append((prog, line[:160], args, lazies))
             else:
                 d["kinds"].add(k)
+                # deep shape of the result against the static result type (for operand vectors inhabiting
+                # the argument types): a record field / enum case the type promised must be there
+                if ks in inh_of[name]:
+                    try:
+                        why = tree_inhabits(parse_tree(inner), res_of[name])
+                    except (ValueError, AssertionError, IndexError) as ex:
+                        why = "unreadable result tree: %s" % ex
+                    if why:
+                        d["errs"].add("ShapeMismatch")
+                        d["progs"].append((prog, ("ERR ShapeMismatch " + why + " :: " + line)[:200], args, lazies))
     return dyn, len(cases)
 
 
@@ -663,7 +846,7 @@ def write_gen(table, dyn):
 # ------------------------------------------------------------------ python re-check (for the search)
 
 EXEMPT_RE = re.compile(r"Definition exempt_ops : list string :=\s*\[(.*?)\]\.", re.S)
-TYPE_ERR = {"TypeErr", "NotAFunc", "NonExhaustive", "UnboundId", "Internal", "NotEnoughArgs", "Unreadable"}
+TYPE_ERR = {"TypeErr", "NotAFunc", "NonExhaustive", "UnboundId", "Internal", "NotEnoughArgs", "Unreadable", "ShapeMismatch"}
 
 
 def exempt_ops():
